@@ -127,6 +127,7 @@ type Contract struct {
 	IsIface  bool
 	Lets     []*Clause // let name = expr (evaluated at entry)
 	ChanInvs []*ChanInvDecl
+	CallsOnly []string // frame on callees: the function may only call functions whose name contains one of these
 	CallersOnly []string // frame on callers: the function may only be called from these functions
 	AtCalls  []*AtCall // assertions checked at call sites inside the function
 	Semaphores []string // channel expressions (params / receiver fields) used as counting semaphores
@@ -328,6 +329,8 @@ func loadPkgSpec(path, pkgPath string) (*PkgSpec, error) {
 			default:
 				return nil, fmt.Errorf("%s:%d: unknown loop clause %s", path, ln.n, parts[1])
 			}
+		case "calls-only":
+			cur.CallsOnly = append(cur.CallsOnly, splitTopLevelCommas(rest)...)
 		case "callers-only":
 			cur.CallersOnly = append(cur.CallersOnly, splitTopLevelCommas(rest)...)
 		case "semaphore":
